@@ -32,6 +32,39 @@ type Plan struct {
 	Script Script        `json:"script"`
 	Client Client        `json:"client"`
 	Fault  *Fault        `json:"fault,omitempty"`
+
+	// More: further sessions on the SAME opened Port / TNC socket after the first
+	// one (which is described by the fields above). Absent in plans written
+	// before the multi-session arm existed: those run exactly one session.
+	More []Session `json:"more,omitempty"`
+}
+
+// Session is one further connection made on the already registered Port.
+type Session struct {
+	// Start: "after" (default; every earlier session is over and the link has gone
+	// quiet, then GapMs) or "overlap" (GapMs after the connect attempt of the
+	// session before it has returned, while that session is still running;
+	// honoured only for a remote station none of the running sessions talks to).
+	// "hasty" is "after" without the wait for a quiet link; it is never generated
+	// (AGWPE frames carry callsigns, not connection identifiers: a late frame of
+	// the earlier connection cannot be told from traffic of the new one, so the
+	// strict oracle does not hold) and exists for hand-made demonstrations.
+	Start string `json:"start,omitempty"`
+	GapMs int    `json:"gap_ms,omitempty"`
+	// Mode, Remote, Digis, UseURL, DialTimeoutMs: as in Plan.
+	Mode          string   `json:"mode"`
+	Remote        string   `json:"remote"`
+	Digis         []string `json:"digis,omitempty"`
+	UseURL        bool     `json:"use_url,omitempty"`
+	DialTimeoutMs int      `json:"dial_timeout_ms,omitempty"`
+	// Connect, ConnectLatMs: how the TNC answers this session's connect request
+	// (TNC.Connect / TNC.ConnectLatMs do that for the first session).
+	Connect      string `json:"connect,omitempty"`
+	ConnectLatMs int    `json:"connect_lat_ms,omitempty"`
+	// Script: the TNC's script for this connection. Client: only the
+	// per-connection fields are used (step delays, reader, writer, closer).
+	Script Script `json:"script"`
+	Client Client `json:"client"`
 }
 
 type SecondReg struct {
@@ -75,6 +108,8 @@ type Fault struct {
 	Kind   string `json:"kind"`
 	Before int    `json:"before"`
 	Val    int    `json:"val,omitempty"`
+	// Session: index of the session whose script carries the fault (0 = first).
+	Session int `json:"session,omitempty"`
 }
 
 // Client is the scripted application.
